@@ -35,6 +35,7 @@ import (
 	"tunnox-core/internal/app/server"
 	"tunnox-core/internal/cloud/models"
 	corelog "tunnox-core/internal/core/log"
+	"tunnox-core/internal/core/storage"
 	"tunnox-core/internal/core/storage/memory"
 	"tunnox-core/internal/core/types"
 	"tunnox-core/internal/packet"
@@ -54,6 +55,9 @@ type fakeConn struct {
 	closed bool
 	ip     string
 	port   int
+
+	wgateParked  chan struct{}
+	wgateRelease chan struct{}
 }
 
 func newFakeConn(ip string, port int) *fakeConn {
@@ -76,6 +80,14 @@ func (f *fakeConn) Read(p []byte) (int, error) {
 }
 func (f *fakeConn) Write(p []byte) (int, error) {
 	f.mu.Lock()
+	if f.wgateParked != nil { // one-shot gate: park the writer (the request's own goroutine) before its next write
+		pk, rl := f.wgateParked, f.wgateRelease
+		f.wgateParked = nil
+		f.mu.Unlock()
+		close(pk)
+		<-rl
+		f.mu.Lock()
+	}
 	defer f.mu.Unlock()
 	if f.closed {
 		return 0, io.ErrClosedPipe
@@ -161,6 +173,7 @@ type world struct {
 	L, T, S  client
 	X        client
 	seq      int
+	gate     *gatedStorage
 }
 
 const otherNode = "node-other"
@@ -247,11 +260,12 @@ func (w *world) tunnelOpen(fc *fakeConn, c *types.Connection, req *packet.Tunnel
 
 func newWorld(withRouting bool) *world {
 	ctx := context.Background()
-	st := memory.New(ctx)
+	gs := &gatedStorage{FullStorage: memory.New(ctx)}
+	var st storage.Storage = gs
 	node := "node-verif"
 	fx, err := server.VerifNewFixture(ctx, st, server.VerifFixtureOptions{NodeID: node, WithRouting: withRouting})
 	must(err)
-	w := &world{fx: fx}
+	w := &world{fx: fx, gate: gs}
 	if withRouting {
 		w.routing = session.NewTunnelRoutingTable(st, 30*time.Second)
 		ln, err := net.ListenTCP("tcp", &net.TCPAddr{IP: net.ParseIP("127.0.0.1"), Port: 0})
@@ -280,10 +294,65 @@ func newWorld(withRouting bool) *world {
 // one table cell
 // ---------------------------------------------------------------------------------------------
 
+// bounded runs a cleanup action of the real code (Bridge.Close, CloseConnection) but does not let the harness hang on it:
+// teardown ordering of a bridge whose two ends were just replaced is C16's subject, not C04's.
+var cleanupStuck int
+
+func bounded(f func()) {
+	done := make(chan struct{})
+	go func() {
+		defer func() { recover(); close(done) }()
+		f()
+	}()
+	select {
+	case <-done:
+	case <-time.After(3 * time.Second):
+		cleanupStuck++
+		fmt.Fprintf(os.Stderr, "verif_c04: a cleanup call of the real code did not return within 3 s (%d so far)\n", cleanupStuck)
+	}
+}
+
+// secretFor derives the presented secret from the named mapping's real secret.
+// none | right | wrong (unrelated) | prefix1 (first character) | prefixall (all but the last character) | suffix (all but
+// the first) | plus (right + one character) | case (case flipped) | onechar (same length, last character changed) |
+// other (the right secret of ANOTHER mapping)
+func secretFor(kind, right, other string) string {
+	switch kind {
+	case "none":
+		return ""
+	case "right":
+		return right
+	case "wrong":
+		return "not-the-secret"
+	case "prefix1":
+		return right[:1]
+	case "prefixall":
+		return right[:len(right)-1]
+	case "suffix":
+		return right[1:]
+	case "plus":
+		return right + "x"
+	case "case":
+		if up := strings.ToUpper(right); up != right {
+			return up
+		}
+		return strings.ToLower(right)
+	case "onechar":
+		b := []byte(right)
+		b[len(b)-1] ^= 1
+		return string(b)
+	case "other":
+		return other
+	}
+	panic("bad secret kind " + kind)
+}
+
+var secretKinds = []string{"none", "right", "wrong", "prefix1", "prefixall", "suffix", "plus", "case", "onechar", "other"}
+
 type cellIn struct {
 	ID     string `json:"id"`     // none | half | listen | target | stranger
 	Mid    string `json:"mid"`    // none | tunnel | other
-	Secret string `json:"secret"` // none | right | wrong
+	Secret string `json:"secret"` // see secretFor
 	Resume bool   `json:"resume"`
 	MState string `json:"mstate"` // active | revoked | expired | inactive | missing  (state of the NAMED mapping; of the tunnel's mapping when none is named)
 	TState string `json:"tstate"` // none | waiting | served | remote
@@ -360,8 +429,8 @@ func runCell(wLocal, wRemote *world, in cellIn) (out cellOut) {
 		must(err)
 		return m
 	}
-	k1 := fmt.Sprintf("k1-%d-secret", cellSeq)
-	k2 := fmt.Sprintf("k2-%d-secret", cellSeq)
+	k1 := fmt.Sprintf("k%d-one-secret", cellSeq)
+	k2 := fmt.Sprintf("k%d-two-secret", cellSeq)
 	m1 := mk(w.L.id, w.T.id, k1)
 	own := me.id
 	if own == 0 {
@@ -379,12 +448,15 @@ func runCell(wLocal, wRemote *world, in cellIn) (out cellOut) {
 		return fc, c, a
 	}
 	defer func() {
-		w.fx.Session.VerifDropBridge(tunnelID)
+		bounded(func() { w.fx.Session.VerifDropBridge(tunnelID) })
 		for _, f := range fakes {
 			f.Close()
 		}
 		for _, c := range conns {
-			_ = w.fx.Session.CloseConnection(c.ID)
+			{
+				id := c.ID
+				bounded(func() { _ = w.fx.Session.CloseConnection(id) })
+			}
 		}
 		if w.connMgr != nil {
 			w.connMgr.CloseTunnel(tunnelID)
@@ -435,12 +507,11 @@ func runCell(wLocal, wRemote *world, in cellIn) (out cellOut) {
 	case "other":
 		req.MappingID = m2.ID
 	}
-	switch in.Secret {
-	case "right":
-		req.SecretKey = named.SecretKey
-	case "wrong":
-		req.SecretKey = "not-the-secret"
+	otherKey := k2
+	if in.Mid == "other" {
+		otherKey = k1
 	}
+	req.SecretKey = secretFor(in.Secret, named.SecretKey, otherKey)
 	if in.Resume {
 		req.ResumeToken = "resume." + tunnelID + ".sig"
 	}
@@ -636,7 +707,7 @@ func gen() {
 
 	// the real credential validator ServerTunnelHandler.HandleTunnelOpen on
 	//   client in (0, listen, target, other) x mapping id named? x secret (none/right/wrong) x resume x mapping state
-	sb.WriteString("(* rows: ((client: 0 none 1 listen 2 target 3 other, names_mapping, secret: 0 none 1 right 2 wrong, resume),\n")
+	sb.WriteString("(* rows: ((client: 0 none 1 listen 2 target 3 other, names_mapping, secret: 0 none 1 right 2 unrelated 3 first char 4 all but last 5 all but first 6 right+1 7 case flipped 8 last char changed, resume),\n")
 	sb.WriteString("          mapping state: 0 active 1 revoked 2 expired 3 inactive 4 missing) -> accepted *)\n")
 	sb.WriteString("Definition validator_table : list ((N * bool * N * bool * N) * bool) := [\n")
 	rows = nil
@@ -644,11 +715,11 @@ func gen() {
 	n := 0
 	for ci, cl := range []int64{0, w.L.id, w.T.id, w.S.id} {
 		for _, names := range []bool{false, true} {
-			for si, sec := range []string{"", "right", "wrong"} {
+			for si, sec := range secretKinds[:9] {
 				for _, res := range []bool{false, true} {
 					for mi, ms := range states {
 						n++
-						m, err := w.fx.Cloud.CreatePortMapping(&models.PortMapping{ListenClientID: w.L.id, TargetClientID: w.T.id, SecretKey: fmt.Sprintf("gk-%d", n),
+						m, err := w.fx.Cloud.CreatePortMapping(&models.PortMapping{ListenClientID: w.L.id, TargetClientID: w.T.id, SecretKey: fmt.Sprintf("Gk-%d-s3cret", n),
 							Protocol: models.ProtocolTCP, TargetHost: "127.0.0.1", TargetPort: 1, Status: models.MappingStatusActive})
 						must(err)
 						key := m.SecretKey
@@ -657,11 +728,7 @@ func gen() {
 						if names {
 							req.MappingID = m.ID
 						}
-						if sec == "right" {
-							req.SecretKey = key
-						} else if sec == "wrong" {
-							req.SecretKey = "nope"
-						}
+						req.SecretKey = secretFor(sec, key, "")
 						if res {
 							req.ResumeToken = "tok"
 						}
@@ -678,7 +745,7 @@ func gen() {
 	sb.WriteString(strings.Join(rows, ";\n") + "\n].\n\n")
 	// does the secret-key path consult IsValid on this tree? (right secret, target client, revoked mapping)
 	sb.WriteString("(* dimensions of the dispatcher table driven through SessionManager.HandlePacket (lib/props/c04.py) *)\n")
-	sb.WriteString("Definition table_dims : list N := [5; 3; 3; 2; 5; 4].\n")
+	sb.WriteString("Definition table_dims : list N := [5; 3; 10; 2; 5; 4].\n")
 	sb.WriteString("Close Scope N_scope.\n")
 	fmt.Print(sb.String())
 }
@@ -695,6 +762,14 @@ func main() {
 			Mode string `json:"mode"`
 		}
 		_ = json.Unmarshal(raw, &probe)
+		if probe.Mode == "race" {
+			var r raceIn
+			must(json.Unmarshal(raw, &r))
+			if wLocal == nil {
+				wLocal = newWorld(false)
+			}
+			return runRace(wLocal, r)
+		}
 		if probe.Mode == "hist" {
 			var h histIn
 			must(json.Unmarshal(raw, &h))
